@@ -70,6 +70,8 @@ pub fn segments() -> Vec<Vec<String>> {
         // exit code line that is not the last line of its block
         s(&["```scrut", "$ cmd", "gone", "> x", "```"]),
         s(&["```scrut", "$ cmd", "[3]", "> x", "```"]),
+        // a title glued to the closing fence of a foreign block that is itself glued to a paragraph
+        s(&["Intro", "```bash", "x", "```", "Real title", "```scrut", "$ cmd", "```"]),
         // blanks after the configuration; a configuration group of blanks
         s(&["```scrut {timeout: 3s} ", "$ cmd", "out", "```"]),
         s(&["```scrut { }", "$ cmd", "out", "```"]),
